@@ -57,6 +57,13 @@ def check_case(case) -> Result:
     kw = dict(missed_cleavages=mc, semi=semi)
     out = {t: list(pt.digest(s, rx, return_type=t, **kw)) for t in RTS}
     spans = [tuple(x) for x in out['span']]
+    # a static rule whose terminal target is spelled as in the ProForma text ('N-term' / 'C-term') is the same rule
+    if any(t in ('N-Term', 'C-Term') for _ms, tg in pep['static'] for t in tg):
+        s_spec = s.replace('N-Term', 'N-term').replace('C-Term', 'C-term')
+        out_spec = [x.replace('N-term', 'N-Term').replace('C-term', 'C-Term') for x in pt.digest(s_spec, rx, return_type='str', **kw)]
+        if out_spec != out['str']:
+            r.fail('each peptide carries terminal modifications only if it contains that terminus, and the global rules',
+                   'C07/static-terminal-target-in-ProForma-spelling', protein_spec_spelling=s_spec, got=out_spec[:8], expected=out['str'][:8], **ctx)
     # the five return types describe the same peptides
     ok = all(len(out[t]) == len(spans) for t in RTS)
     if ok:
